@@ -18,6 +18,7 @@ import (
 	protoser "perun.network/go-perun/wire/protobuf"
 	"verif/harness/internal/cv"
 	"verif/harness/internal/hx"
+	"verif/harness/internal/protoc"
 )
 
 // chunkReader delivers the stream in the given chunks: one Read never crosses a chunk boundary.
@@ -254,5 +255,6 @@ func RunC16(seed int64, tier, out string) {
 	}
 	flush()
 	res.Rule = "streams of 1-3 well-formed envelopes delivered through a chunking io.Reader: whole, single bytes, 1460-byte segments, one cut at a random offset, 1-7 byte chunks, random chunks; decoded envelopes and clean end compared with run_chunked of the model; distinct by (partition class, envelopes, decoded, chunk count class)"
+	protoc.RunC16(seed, tier, out, total, res)
 	res.Write(out)
 }
